@@ -494,6 +494,7 @@ def nontrivial(inp, res):
 
 def run(args):
     rep = Report(PROP, args.tier, args.seed)
+    replay_data = json.load(open(args.replay)) if args.replay else None     # before the replay directory is emptied
     shutil.rmtree(WORK / PROP / "replays", ignore_errors=True)
     standard_proof_part(rep, PROP)
     # an extra theorem that depends on another property's spec file (Spec/Joint.v, C16): Proofs/C15_Reconcile.v proves that
@@ -510,7 +511,7 @@ def run(args):
     rng = random.Random(args.seed * 15485863 + 15)
     seqs = []
     if args.replay:
-        data = json.load(open(args.replay))
+        data = replay_data
         if "sequence" in data["input"]:
             inputs, seqs = [], [data["input"]["sequence"]]
         else:
@@ -608,6 +609,7 @@ def run(args):
                                                                        "a precondition's atom or fluent changed by the other": interfering["p"],
                                                                        "none": interfering["-"]},
                                  "conversions_raised": raised,
+                                 "plans_with_an_action_of_inconsistent_effects(not judged)": sum(1 for k in classes if k == "c"),
                                  "flag_true": sum(1 for i in inputs if i["flag"]), "flag_false": sum(1 for i in inputs if not i["flag"])}
     cov["enumerated_two_action_plans"] = {"worlds": PAIR_WORLDS,
                                           "note": "every valid two-action plan with different executing agents from the initial state of each world "
@@ -634,7 +636,8 @@ def run(args):
                        "plan_text": c["input"]["case"]["plan_text"][:300],
                        "joint": (c["input"]["implementation"]["joint"] or {}).get("text", "raised")}
                       for c in (cases[:1] + cases[len(cases) // 2:len(cases) // 2 + 2] + cases[-1:])]
-    rep.assumptions = ["ASCII plan files", "domains without quantified conditions/effects (the converter passes no object table: universal parts are skipped by the library)",
+    rep.assumptions = ["ASCII plan files", "every action instance of the plan has consistent simultaneous effects (Spec.Pddl.consistent; else the case is "
+                       "recognised inside Coq on its input and not judged: the library's answer then depends on a set order)", "domains without quantified conditions/effects (the converter passes no object table: universal parts are skipped by the library)",
                        "CPython re/str facts re-checked on this run: %s" % f_ok,
                        "pattern text and NOP name read from the module at run time and compared with the texts the model was written for"]
     return rep.finish()
